@@ -17,6 +17,7 @@ from typing import TYPE_CHECKING, Generic, TypeVar
 import pynguin.ga.algorithms.archive as arch
 import pynguin.ga.testcasechromosome as tcc
 import pynguin.ga.testsuitechromosome as tsc
+from pynguin.utils import verif_hooks
 from pynguin.utils.orderedset import OrderedSet
 
 if TYPE_CHECKING:
@@ -299,6 +300,7 @@ class GenerationAlgorithm(Generic[A]):  # noqa: PLR0904
         Args:
             best: The currently best produced test suite.
         """
+        verif_hooks.phase("search-iteration")
         for obs in self._search_observers:
             obs.after_search_iteration(best)
 
